@@ -134,6 +134,18 @@ class YPCodeProgram:
         return generator.generate_program(self)
 
 
+class CutIfMarker:
+    """Internal goal that the compiler puts behind the condition of an if-then-else: when it
+    is reached, the breakable block with this label is committed to the then-branch. It is a
+    class of its own, because a goal in the source can have any name."""
+    def __init__(self,label):
+        self.label = label
+    @property
+    def variables(self):
+        return []
+    def __str__(self):
+        return f'$CUTIF({self.label})'
+
 class YPPrologCompiler:
     def __init__(self,context):
         self.context = context
@@ -209,18 +221,16 @@ class YPPrologCompiler:
         # :- A,B
         self._debug(f'---- Body: {body} :: {body!r}')
         if isinstance(body,ConjunctionPredicate):
+            if isinstance(body.lhs,CutIfMarker):
+                self._debug("------ case: $CUTIF, A")
+                code_a = self.compile_body(body.rhs)
+                code_b = [ YPCodeBreakBlock(body.lhs.label) ]
+                return code_a + code_b
             # if A is simple
-            if isinstance(body.lhs,Predicate):
-                if body.lhs.functor.name.value == '$CUTIF':
-                    self._debug("------ case: $CUTIF, A")
-                    label = body.lhs.functor.args[0].value
-                    code_a = self.compile_body(body.rhs)
-                    code_b = [ YPCodeBreakBlock(label) ]
-                    return code_a + code_b
-                else:
-                    self._debug("------ case: A,B")
-                    coderhs = self.compile_body(body.rhs)
-                    return self.compile_predicate(body.lhs, coderhs)
+            elif isinstance(body.lhs,Predicate):
+                self._debug("------ case: A,B")
+                coderhs = self.compile_body(body.rhs)
+                return self.compile_predicate(body.lhs, coderhs)
             elif isinstance(body.lhs,CutPredicate):
                 self._debug("------ case: (!,A) => A [yieldBreak]")
                 code_a = self.compile_body(body.rhs)
@@ -294,7 +304,7 @@ class YPPrologCompiler:
                         ConjunctionPredicate(
                             body.lhs.condition,
                             ConjunctionPredicate(
-                                Predicate(Functor(Atom("$CUTIF"),[Atom(cut_if_label)])),
+                                CutIfMarker(cut_if_label),
                                 body.lhs.action
                             )
                         ),
@@ -313,12 +323,11 @@ class YPPrologCompiler:
             return self.compile_body(ConjunctionPredicate(body, TruePredicate()))
         # :- functor(...)   A => A, true
         elif isinstance(body,Predicate):
-            if body.functor.name.value == '$CUTIF':
-                self._debug("------ case: $CUTIF", body.functor.args)
-                return [ self.YPCodeBreakBlock(body.functor.args[0].value) ]
-            else:
-                self._debug("------ case: [A  =>  A, true]  A => A, true")
-                return self.compile_body(ConjunctionPredicate(body, TruePredicate()))
+            self._debug("------ case: [A  =>  A, true]  A => A, true")
+            return self.compile_body(ConjunctionPredicate(body, TruePredicate()))
+        elif isinstance(body,CutIfMarker):
+            self._debug("------ case: $CUTIF")
+            return [ YPCodeBreakBlock(body.label) ]
         elif isinstance(body,NegationPredicate):
             self._debug("------ case: [A  =>  A, true]  (\\+ A) => (\\+ A), true")
             return self.compile_body(ConjunctionPredicate(body, TruePredicate()))
